@@ -65,6 +65,21 @@ func main() {
 		for _, r := range allRules {
 			fmt.Printf("| %s | %s | %d | %s |\n", r.ID, strings.Join(r.Props, " "), r.Min, strings.ReplaceAll(r.Doc, "|", "\\|"))
 		}
+	case "baseline":
+		// prints the function keys of the tree (recorded as baseline_funcs.txt for the pinned tree)
+		repo := "/repo"
+		if len(os.Args) > 2 {
+			repo = os.Args[2]
+		}
+		keys, err := listFuncKeys(repo, "tars")
+		if err != nil {
+			fmt.Fprintln(os.Stderr, err)
+			os.Exit(2)
+		}
+		fmt.Println("# functions declared in the pinned tree (dir|receiver|name); anything else is a new function, see inline.go")
+		for _, k := range keys {
+			fmt.Println(k)
+		}
 	case "list":
 		sort.SliceStable(allRules, func(i, j int) bool { return allRules[i].ID < allRules[j].ID })
 		for _, r := range allRules {
